@@ -144,6 +144,14 @@ class World:
         mk = lambda: bytes(rnd.choice(b"0123456789ABCDEF:-") for _ in range(n))
         ida = mk()
         idb = mk()
+        # the stored identifier has letters of both cases where it is long enough, so that
+        # upper/lower-cased variants differ from it
+        if not any(c in b"ABCDEF" for c in ida):
+            ida = b"C" + ida[1:]
+        if n >= 2 and not any(c in b"abcdef" for c in ida):
+            first_upper = next(i for i in range(n) if ida[i] in b"ABCDEF")
+            k = n - 1 if first_upper != n - 1 else n - 2
+            ida = ida[:k] + bytes([b"abcdef"[ida[k] % 6]]) + ida[k + 1:]
         while idb == ida:
             idb = bytes([idb[0] ^ 1]) + idb[1:]
         self.acc = {"A": Acc(rnd, ida), "B": Acc(rnd, idb)}
@@ -763,9 +771,39 @@ def gen_cases(ctx, W, full, stride=1):
     # another identifier, properly signed by the stored long-term key
     for n in trunc_points(L["id"]):
         add("trunc:id+signed", {"mut": [["id", "trunc", n]], "sign_mutated_id": True})
-    for bit in range(8 * L["id"]):
-        if full or bit % max(stride, 4) == 0:
-            add("flip:id+signed", {"mut": [["id", "flip", bit]], "sign_mutated_id": True})
+    # A peer that HOLDS the stored long-term key but presents another identifier, signing
+    # consistently over (session_pub ++ identifier_as_sent ++ own_pub): the signature verifies,
+    # only the identifier comparison stands between it and acceptance.
+    def other_id(name, val):
+        if val != stored_id:
+            add("otherid:" + name, {"mut": [["id", "set", val.hex()]], "sign_mutated_id": True})
+
+    stored_id = W.acc["A"].ident
+    nid = L["id"]
+    bits = range(8 * nid) if nid <= 64 else [b for b in range(8 * nid) if b < 64 or b >= 8 * nid - 64 or b % 8 == 5 and (b // 8) % 4 == 0 or b % stride == 0]
+    for bit in bits:
+        add("flip:id+signed", {"mut": [["id", "flip", bit]], "sign_mutated_id": True})
+    for k in trunc_points(nid):
+        if k:
+            other_id("suffix-from-%d" % k, stored_id[k:])
+    other_id("upper", stored_id.upper())
+    other_id("lower", stored_id.lower())
+    other_id("swapcase", stored_id.swapcase())
+    other_id("title", stored_id.title())
+    for name, tail in (("space", b" "), ("nul", b"\x00"), ("newline", b"\n"), ("crlf", b"\r\n"), ("tab", b"\t"), ("two-spaces", b"  "),
+                       ("two-nuls", b"\x00\x00"), ("slash", b"/"), ("colon", b":"), ("ff", b"\xff"), ("nbsp-utf8", b"\xc2\xa0")):
+        other_id("trailing-" + name, stored_id + tail)
+        other_id("leading-" + name, tail + stored_id)
+    other_id("surrounded-by-spaces", b" " + stored_id + b" ")
+    other_id("without-separators", stored_id.replace(b":", b"").replace(b"-", b""))
+    other_id("separators-swapped", stored_id.replace(b":", b"\x01").replace(b"-", b":").replace(b"\x01", b"-"))
+    other_id("doubled", stored_id + stored_id)
+    other_id("reversed", stored_id[::-1])
+    other_id("zero-padded", b"0" + stored_id)
+    other_id("first-char-repeated", stored_id[:1] + stored_id)
+    other_id("last-char-repeated", stored_id + stored_id[-1:])
+    other_id("identifier-of-B", W.acc["B"].ident)
+    other_id("fullwidth-utf8", "".join(chr(0xFEE0 + c) if 0x21 <= c <= 0x7E else chr(c) for c in stored_id[:8]).encode() + stored_id[8:])
     add("long:id+signed", {"mut": [["id", "append", "00"]], "sign_mutated_id": True})
     # identifier / key / signature of a second valid accessory
     add("subst:whole-reply-of-B", {"eph": "B", "id": "B", "signer": "B"})
@@ -1437,6 +1475,10 @@ def judge_and_record(ctx, case, res, coq_items):
         return
     errs = oracle(case, res)
     j = res["judge"]
+    if case["family"].startswith(("otherid:", "flip:id+signed", "trunc:id+signed", "long:id+signed")) and not case.get("cvar"):
+        sigs = j["tables"]["sig"]
+        if j["why"] != "identifier-differs" or not sigs or sigs[-1][1] is not True:
+            ctx.tie_broken("harness:other-identifier-case-not-signed-consistently", json.dumps({"case": case, "why": j["why"]}))
     ctx.case((case["family"], json.dumps(case["spec"], sort_keys=True), case.get("cvar"), case.get("f1"), case.get("f3"), case.get("id_len"),
               tuple(o["proto"] for o in res["obs"])),
              nontrivial=j["why"] != "outer-malformed",
